@@ -4,6 +4,8 @@
 //   opt_replay [job]      exit 1 = deviation printed (first few), exit 0 = none
 // Tokens that the listed known findings cover are skipped and counted (malformed_dash_in_positional_part: a malformed dash token after -- or, in greedy mode, after the first positional).
 #include <nitro/options/parser.hpp>
+#include <nitro/io/terminal.hpp>
+#include <cstring>
 #include <cstdio>
 #include <cstdlib>
 #include <map>
@@ -188,8 +190,40 @@ static void compare(const char* what, int di, const Res& got, const Res& want, c
         std::printf("DEVIATION %s: declaration %d, argv %s%s\n    real:      %s\n    reference: %s\n", what, di, show(args).c_str(), env.c_str(), show(got).c_str(), show(want).c_str());
 }
 
-int main(int, char**)
+// ---- format_padded (C15): every word once and in order; no line beyond max_width unless a word on it is longer than a whole line
+static int sweep_format_padded()
 {
+    long n = 0; int dev = 0;
+    const int W = 12;
+    for (int left_pad : { 0, 3, 5 }) for (int prefix = 0; prefix <= 7; ++prefix)
+        for (int a = 0; a <= 13; ++a) for (int b = 0; b <= 13; ++b) for (int c = -1; c <= 13; ++c)
+        {
+            V words = { S(a, 'a'), S(b, 'b') }; if (c >= 0) words.push_back(S(c, 'c'));
+            S text; for (size_t i = 0; i < words.size(); ++i) text += (i ? " " : "") + words[i];
+            std::stringstream s; s << S(prefix, '#');
+            nitro::io::terminal::format_padded(s, text, left_pad, W);
+            S out = s.str().substr(prefix); ++n;
+            // words in order (blank-separated, empty words vanish)
+            V got; { std::stringstream t(out); S w; while (t >> w) got.push_back(w); }
+            V want; for (auto& w : words) if (!w.empty()) want.push_back(w);
+            bool ok = got == want;
+            // line widths
+            std::stringstream l(S(prefix, '#') + out); S line; 
+            while (std::getline(l, line))
+            {
+                bool forced = false; { std::stringstream t(line); S w; while (t >> w) if (w[0] != '#' && (int)w.size() + 1 > W - left_pad) forced = true; }
+                if ((int)line.size() > W && !forced && line.find('#') == S::npos) ok = false;
+                if ((int)line.size() > W && !forced && line.find('#') != S::npos && prefix <= left_pad) ok = false;
+            }
+            if (!ok && ++dev <= 5) std::printf("DEVIATION format_padded(left_pad=%d, max_width=%d) on a stream holding %d characters, text '%s':\n%s\n", left_pad, W, prefix, text.c_str(), out.c_str());
+        }
+    std::printf("format_padded: %ld cases, %d deviations\n", n, dev);
+    return dev ? 1 : 0;
+}
+
+int main(int argc, char** argv)
+{
+    if (argc > 1 && !std::strcmp(argv[1], "format_padded")) return sweep_format_padded();
     const char* E1 = "NITRO_REPLAY_E1"; const char* E2 = "NITRO_REPLAY_E2"; const char* E3 = "NITRO_REPLAY_E3";
     std::vector<Decl> decls = {
         { { { "verbose", "v", false, "", 0 }, { "all", "a", true, "", 0 } }, { { "out", "o", "", false, "", true } }, { { "inc", "i", "", false, {}, true } }, 2, false },
